@@ -12,7 +12,7 @@ package main
 //	! setloop|setttl|setout <s> <v>            setters, followed by the getters and the kernel's option record
 //	! break <s> / mend <s>                     the peer's descriptor number temporarily refers to /dev/null: every
 //	                                           setsockopt fails (ENOTSOCK) while the socket itself lives on
-//	! send <s> to=<g<k>|s<j>> data=<hex|pat:seed:len>
+//	! send <s> to=<g<k>|s<j>> data=<hex|pat:seed:len> [atlimit]   (atlimit: issued with IO.Dispatched at the dispatch limit)
 //	! read <s> <len> [all] / setbuf <s> <len> / poll / close <s>
 //
 // "?" lines are kernel oracles: `? kern` = getsockopt/getsockname on a duplicate of RawFd(), `? src` = the source
@@ -635,6 +635,19 @@ func (mw *mcastWorld) exec(f []string) {
 			}
 		}
 		res := ""
+		// "atlimit": the write is issued while IO.Dispatched is at MaxCallbackDispatch: the library defers it to the poller
+		// and must still send this datagram to this destination
+		atLimit := f[len(f)-1] == "atlimit" && s.kind != "raw"
+		for _, other := range mw.socks {
+			// (the polls that complete the deferred write must not complete a read, which the script completes at its own
+			// `poll` and whose datagram the arrival oracle below has to find in the receive queue)
+			if other.pending && !other.closed {
+				atLimit = false
+			}
+		}
+		if atLimit {
+			mw.ioc.Dispatched = sonic.MaxCallbackDispatch
+		}
 		switch s.kind {
 		case "raw":
 			err := syscall.Sendto(s.fd, payload, 0, dst)
@@ -659,6 +672,9 @@ func (mw *mcastWorld) exec(f []string) {
 				}
 				res = fmt.Sprintf("%s %d", errClass(err), n)
 			})
+		}
+		if atLimit {
+			mw.ioc.Dispatched = 0
 		}
 		for i := 0; res == "" && i < 50; i++ {
 			waitReady(s.fd, unix.POLLOUT, 20)
@@ -955,7 +971,7 @@ func mcastGenPC(r *rng, maxops int, w *bufio.Writer) {
 				if bytesQ[to]+ln > 150000 || len(queued[to]) > 40 {
 					continue
 				}
-				fmt.Fprintf(w, "! send %d to=s%d data=%s\n", from, to, p)
+				fmt.Fprintf(w, "! send %d to=s%d data=%s%s\n", from, to, p, r.pick2("", "", "", " atlimit"))
 				if ln <= 65507 {
 					queued[to] = append(queued[to], ln)
 					bytesQ[to] += ln
@@ -1116,7 +1132,7 @@ func mcastGenPeers(r *rng, maxops int, w *bufio.Writer) {
 				if r.intn(12) == 0 {
 					to = fmt.Sprintf("s%d", recv[r.intn(len(recv))])
 				}
-				fmt.Fprintf(w, "! send %d to=%s data=%s\n", from, to, p)
+				fmt.Fprintf(w, "! send %d to=%s data=%s%s\n", from, to, p, r.pick2("", "", "", " atlimit"))
 				lastLen = ln
 				if ln > 60000 {
 					qn += 10
